@@ -45,6 +45,8 @@ def run(ctx):
     ctx.assume("ideal hash: commitments are equal iff namespace, data, share version and signer are equal")
     ctx.assume("small-scope: <=4 blobs per enumerated block, <=3 namespaces, ODS width <=32 (random blocks <=64)")
     quick = ctx.quick
+    if ctx.replay:
+        return replay(ctx)
     s_cfg = "blob/MCBlobParser_quick.cfg" if quick else "blob/MCBlobParser_thorough.cfg"
     p_cfg = "blob/MCBlobParser_prod.cfg" if quick else "blob/MCBlobParser_prod_thorough.cfg"
     # Measured: these models do not scale beyond a few TLC workers, and on a busy machine the parallel
@@ -91,3 +93,19 @@ def run(ctx):
     missing = {k: (c.get(k, 0), v) for k, v in need.items() if c.get(k, 0) < v}
     if missing and rep is not None and not rep.get("inconclusive"):
         ctx.inconclusive("vacuity: driver counters below the required minimum (have, need): %s" % missing)
+
+
+def replay(ctx):
+    """bin/check C11 --replay <file>: re-run the recorded case on the current tree (same seed)."""
+    d = json.load(open(ctx.replay))
+    obj = d.get("replay") if isinstance(d.get("replay"), dict) else d
+    p = os.path.join(ctx.work, "replay_case.json")
+    with open(p, "w") as f:
+        json.dump(obj, f)
+    env = {"VERIF_REPLAY_CASE": p}
+    if obj.get("seed") is not None:
+        env["VERIF_SEED"] = obj["seed"]
+    rep = ctx.go_driver("blob", env=env, timeout=900)
+    ctx.cover(evaluations=1, traces_validated_against_impl=1)
+    ctx.sample(obj.get("case", obj))
+    ctx.note("replay of %s: %s" % (ctx.replay, json.dumps((rep or {}).get("summary"))[:300]))
